@@ -74,17 +74,17 @@ pub fn jstr(s: &str) -> String {
 pub fn write_all(dir: &str, spec: &Spec<'_>, cases: &[Case], extra: &[(&str, String)]) {
     // Sharded Coq files.
     let mut shard = 0;
-    for chunk in cases.chunks(spec.shard.max(1)) {
+    let indexed: Vec<(usize, &Case)> = cases.iter().enumerate().filter(|(_, c)| !c.coq.is_empty()).collect();
+    for chunk in indexed.chunks(spec.shard.max(1)) {
         let mut v = String::new();
         for m in spec.imports {
             let _ = writeln!(v, "From A10 Require Import {m}.");
         }
         v.push_str("From A10 Require Import Base.Run.\nOpen Scope Z_scope.\n");
         let _ = writeln!(v, "Definition cases : list (Z * {} * list Z) := [", spec.case_ty);
-        let base = shard * spec.shard;
-        for (i, c) in chunk.iter().enumerate() {
+        for (i, (idx, c)) in chunk.iter().enumerate() {
             let sep = if i + 1 == chunk.len() { "" } else { ";" };
-            let _ = writeln!(v, "  ({}, ({}), {}){}", base + i, c.coq, zlist(&c.obs), sep);
+            let _ = writeln!(v, "  ({}, ({}), {}){}", idx, c.coq, zlist(&c.obs), sep);
         }
         v.push_str("].\n");
         let _ = writeln!(v, "Eval vm_compute in (mismatches {} cases).", spec.run_fn);
@@ -144,4 +144,123 @@ pub fn write_all(dir: &str, spec: &Spec<'_>, cases: &[Case], extra: &[(&str, Str
     }
     s.push('}');
     fs::write(format!("{dir}/summary.json"), s).unwrap();
+}
+
+// ---------------------------------------------------------------------------------------------
+// Crash-isolated, parallel case execution: cases are computed in forked worker processes so that
+// an abort or a segmentation fault in the code under test costs one case, not the whole run.
+
+const FS: char = '\x1f';
+const RS: char = '\x1e';
+const GS: char = '\x1d';
+
+fn ser(c: &Case) -> String {
+    let obs: Vec<String> = c.obs.iter().map(|x| x.to_string()).collect();
+    format!(
+        "{}{FS}{}{FS}{}{FS}{}{FS}{}{FS}{}{FS}{}",
+        c.coq,
+        obs.join(","),
+        c.json,
+        c.oracle.as_deref().map(|s| format!("S{s}")).unwrap_or_else(|| "N".into()),
+        c.known.as_deref().map(|s| format!("S{s}")).unwrap_or_else(|| "N".into()),
+        c.tags.join(&GS.to_string()),
+        c.nontrivial as u8
+    )
+}
+
+fn de(s: &str) -> Option<Case> {
+    let f: Vec<&str> = s.split(FS).collect();
+    if f.len() != 7 {
+        return None;
+    }
+    let opt = |x: &str| if let Some(r) = x.strip_prefix('S') { Some(r.to_string()) } else { None };
+    Some(Case {
+        coq: f[0].to_string(),
+        obs: if f[1].is_empty() { vec![] } else { f[1].split(',').map(|x| x.parse().unwrap()).collect() },
+        json: f[2].to_string(),
+        oracle: opt(f[3]),
+        known: opt(f[4]),
+        tags: if f[5].is_empty() { vec![] } else { f[5].split(GS).map(|x| x.to_string()).collect() },
+        nontrivial: f[6] == "1",
+    })
+}
+
+/// Compute `f(i)` for `i in 0..n` in `workers` forked processes. A case whose process dies is
+/// reported as an oracle failure (with an empty Coq term: it is left out of the model files).
+pub fn run_forked(dir: &str, n: usize, workers: usize, f: &dyn Fn(usize) -> Case) -> Vec<Case> {
+    use std::io::Write as _;
+    let workers = workers.max(1).min(n.max(1));
+    let mut results: Vec<Option<Case>> = (0..n).map(|_| None).collect();
+    // (worker, next index to run)
+    let mut pending: Vec<(usize, usize)> = (0..workers).map(|w| (w, w)).collect();
+    let mut round = 0;
+    while !pending.is_empty() {
+        round += 1;
+        let mut children = Vec::new();
+        for &(w, start) in &pending {
+            let path = format!("{dir}/.worker_{w}_{round}");
+            let pid = unsafe { libc::fork() };
+            assert!(pid >= 0, "fork failed");
+            if pid == 0 {
+                let mut file = fs::File::create(&path).unwrap();
+                let mut i = start;
+                while i < n {
+                    let _ = write!(file, "B{i}{RS}");
+                    let _ = file.flush();
+                    let c = f(i);
+                    let _ = write!(file, "C{i}{FS}{}{RS}", ser(&c));
+                    let _ = file.flush();
+                    i += workers;
+                }
+                unsafe { libc::_exit(0) };
+            }
+            children.push((w, start, pid, path));
+        }
+        pending.clear();
+        for (w, start, pid, path) in children {
+            let mut status = 0;
+            unsafe { libc::waitpid(pid, &mut status, 0) };
+            let text = fs::read_to_string(&path).unwrap_or_default();
+            let _ = fs::remove_file(&path);
+            let mut begun: Option<usize> = None;
+            for rec in text.split(RS) {
+                if let Some(i) = rec.strip_prefix('B') {
+                    begun = i.parse().ok();
+                } else if let Some(rest) = rec.strip_prefix('C') {
+                    if let Some((i, body)) = rest.split_once(FS) {
+                        if let (Ok(i), Some(c)) = (i.parse::<usize>(), de(body)) {
+                            results[i] = Some(c);
+                            if begun == Some(i) {
+                                begun = None;
+                            }
+                        }
+                    }
+                }
+            }
+            let clean = libc::WIFEXITED(status) && libc::WEXITSTATUS(status) == 0;
+            if !clean {
+                let i = begun.unwrap_or(start);
+                let how = if libc::WIFSIGNALED(status) {
+                    format!("signal {}", libc::WTERMSIG(status))
+                } else {
+                    format!("exit status {}", libc::WEXITSTATUS(status))
+                };
+                if i < n && results[i].is_none() {
+                    results[i] = Some(Case {
+                        coq: String::new(),
+                        obs: vec![],
+                        json: format!("{{\"case_index\":{i},\"note\":\"regenerate with the same seed\"}}"),
+                        oracle: Some(format!("the process running this case died ({how}): memory corruption or an abort inside the code under test")),
+                        known: None,
+                        tags: vec!["crashed".into()],
+                        nontrivial: false,
+                    });
+                }
+                if i + workers < n {
+                    pending.push((w, i + workers));
+                }
+            }
+        }
+    }
+    results.into_iter().flatten().collect()
 }
